@@ -22,10 +22,27 @@ fn usage() -> ! {
     std::process::exit(2);
 }
 
+/// Standard input of this process becomes a pipe that never delivers anything and never ends
+/// (the write end stays open, unused): what a terminal that nobody types on, or a pipe from a
+/// live process, looks like to a child that inherits it. txtpp gives its commands /dev/null.
+fn stdin_that_never_ends() {
+    unsafe {
+        let mut fds = [0i32; 2];
+        if libc::pipe(fds.as_mut_ptr()) == 0 {
+            libc::dup2(fds[0], 0);
+            libc::close(fds[0]);
+            // fds[1] is leaked on purpose
+        }
+    }
+}
+
 fn main() {
     let args: Vec<String> = std::env::args().collect();
     if args.len() < 2 {
         usage();
+    }
+    if matches!(args[1].as_str(), "worker" | "runcase" | "replay") {
+        stdin_that_never_ends();
     }
     let code = match args[1].as_str() {
         "check" => {
